@@ -191,6 +191,12 @@ func c11(p *core.Prog, r *core.Report) {
 	c11Goroutines(p, r)
 	selfJoin(p, r, "C11-R4", "")
 	c11Relay(p, r)
+	// a relay connection is quiescent only when its pending count is back to
+	// zero: the count is balanced on every path (shared with C09-R3 / C07-R7)
+	r.Rule("C11-R6", "E6 who-may-call/paths", 6, "relay pending count is balanced (shared with C09)")
+	r.Alias("C09-R3", "C11-R6")
+	c09Pending(p, r)
+	r.Alias("C09-R3", "")
 }
 
 func c11Exchanges(p *core.Prog, r *core.Report) {
@@ -520,6 +526,25 @@ func c11Dropped(p *core.Prog, r *core.Report) {
 				told += len(peerLookups(f)) // the closure is the notifier: once per lookup site
 			}
 		}
+		// neither notification may depend on the other peer being absent
+		indep := true
+		for _, ls := range peerLookups(f) {
+			if factsAt(ls.At.Block()).hasBool(func(v ssa.Value) bool {
+				ex, ok := v.(*ssa.Extract)
+				if !ok || ex.Index != 1 {
+					return false
+				}
+				c, isC := ex.Tuple.(*ssa.Call)
+				if !isC || ssa.Instruction(c) == ls.At {
+					return false
+				}
+				_, isGet := core.IsCall(c, "RootPeerList.Get")
+				return isGet
+			}, false) {
+				indep = false
+			}
+		}
+		r.Check(indep, "C11-R3", fname(f), "the dialled peer is told whether or not the announced peer exists", p.Pos(f.Pos()), "no lookup is conditional on another lookup failing", "the dialled-address peer is told about the close only when no peer exists for the announced address: otherwise it keeps the closed connection for ever")
 		r.Check(both && told >= 2, "C11-R3", fname(f), "both the announced and the dialled peer are told", p.Pos(f.Pos()), "peers looked up by: "+strings.Join(ks, ", "), "only "+strings.Join(ks, ", ")+" is told about the close")
 	}
 	if f := mustFunc(p, r, "", "Channel", "removeClosedConn"); f != nil {
